@@ -30,6 +30,7 @@ func init() {
 	// is the source itself, its observation is "ok"
 	impls["census"] = func(a []string) string { return "ok" }
 	impls["censusall"] = func(a []string) string { return "ok" }
+	impls["counters"] = func(a []string) string { return "ok" }
 	// newParseOptions is unexported: reached through RouterAdvertisement.Options, which hands
 	// over p[16:] when len(p) > 16 (an empty option block returns early there and in the model).
 	impls["ndp"] = func(a []string) string {
